@@ -176,7 +176,7 @@ class ExprMixin(object):
         mod = fr.module
         if mod is not None and name in vars(mod):
             return self.lift(vars(mod)[name])
-        if name.startswith('c_') and getattr(fr, 'c_mode', False):
+        if name.startswith('c_') and (getattr(fr, 'c_mode', False) or self.registry.get('c:' + name[2:]) is not None):
             from .cruntime import CFunction
             return PyObj(CFunction(name[2:]))
         if hasattr(pybuiltins, name):
